@@ -171,6 +171,7 @@ def _run_tmode(report, tier, seed, log=print):
     rnd = random.Random(seed * 104729 + 19)
     per = 1 if tier == "quick" else 3
     byfam = {}
+    completions = {}
     for famname, spec, cfg, cycles in fam.tmode_configs(tier):
         for k in range(per):
             ev = tmode_trace(spec, cfg, TMODE_HINTS[famname](), cycles, rnd)
@@ -178,12 +179,14 @@ def _run_tmode(report, tier, seed, log=print):
             # time-out / done / pulses / irq / idle, per kind)
             i = _COMPLETION_OUTPUT[cfg["kind"]]
             done = sum(1 for a, b in zip(ev, ev[1:]) if a[1][i] == 0 and b[1][i] != 0)
-            if done == 0:
-                raise MachineryError("T-mode run of %s contains no completed operation" % _describe(spec))
+            completions[cfg["kind"]] = completions.get(cfg["kind"], 0) + done
             report.add(tmode_completions=done)
             tcfg = dict(cfg)
             tcfg["stallbound"] = 10**8
             byfam.setdefault(famname, []).append((spec, {"cfg": tcfg, "ev": ev}))
+    for kind, n in sorted(completions.items()):
+        if n == 0:
+            raise MachineryError("the T-mode runs of kind %s contain no completed operation" % kind)
     total = 0
     for famname, items in byfam.items():
         family, invs, _, _ = FAMILIES[famname]
